@@ -63,7 +63,7 @@ ASSUMPTIONS = [
 TARGET_EXT = {"python": (".py",), "typescript": (".ts",), "java": (".java",), "csharp": (".cs",), "golang": (".go",),
               "cpp": (".cpp", ".hpp"), "jsonschema": (".json",), "xsd": (".xsd", ".xml")}
 
-# Model-dependent translation units (quick); level 2 adds every other .cpp of src/ and test/.
+# Model-dependent translation units (quick); level 2 adds every other .cpp of src/.
 CPP_QUICK_TUS = ["src/constants.cpp", "src/verification.cpp", "src/stringification.cpp", "src/wstringification.cpp",
                  "src/types.cpp"]
 
@@ -192,7 +192,8 @@ def check_target_output(target: str, root: pathlib.Path, cpp_level: int, scratch
             all_headers.write_text("".join(f'#include "{h[len("include/"):]}"\n' for h in headers), encoding="utf-8")
             tus = ["src/verif_all_headers.cpp"] + [t for t in CPP_QUICK_TUS if (root / t).is_file()]
             if cpp_level > 1:
-                tus += [r for r in all_rels if r.endswith(".cpp") and r not in tus and r != "src/common.cpp"]
+                # (the translation units under test/ need Catch2, which is not installed)
+                tus += [r for r in all_rels if r.endswith(".cpp") and r.startswith("src/") and r not in tus and r != "src/common.cpp"]
             workers = 6 if cpp_level == 1 else 3
             with concurrent.futures.ThreadPoolExecutor(max_workers=workers) as pool:
                 results = list(pool.map(lambda tu: c20_parse.check_cpp_tu(root, tu), tus))
